@@ -370,6 +370,78 @@ theorem c04_response_connection_close_only (closeWhenIdle : Bool) :
     (preHeaders closeWhenIdle).values kConnection = if closeWhenIdle then [kClose] else [] := by
   cases closeWhenIdle <;> decide
 
+/-! ## response: time -/
+
+/-- the construction of the transport a forwarded request is sent with, pinned: the fields `newTransport` sets (regenerated
+    from pkg/clusters/endpoint.go), the function the literal is handed to, and no later assignment to a time-out field -/
+theorem c04_transport_construction :
+    Gen.C04.transportFields.map (·.1) = ["Proxy", "TLSHandshakeTimeout", "TLSClientConfig", "MaxIdleConnsPerHost", "DialContext", "DisableCompression"] ∧
+    Gen.C04.transportDurationsMs = [("TLSHandshakeTimeout", 10000)] ∧
+    Gen.C04.transportWrap = "utilnet.SetTransportDefaults" ∧ Gen.C04.timeoutAssignments = [] := by decide
+
+/-- the time-outs of `newRESTConfig` and of the two dialers (they bound connecting, and the clientset's own requests) -/
+theorem c04_rest_config_timeouts :
+    Gen.C04.restConfigDurationsMs = [("Timeout", 5000)] ∧ Gen.C04.restDialerMs = [("Timeout", 5000), ("KeepAlive", 30000)] ∧
+    Gen.C04.fallbackDialerMs = [("Timeout", 30000), ("KeepAlive", 30000)] := by decide
+
+/-- **the code has no deadline for the answer of a forwarded request**: the transport literal sets no field that bounds the
+    wait for a response, and no time-out filter is in the chain -/
+theorem c04_no_response_deadline :
+    codeDeadlines.responseHeader = none ∧
+    (∀ f, f ∈ responseDeadlineFields → f ∉ Gen.C04.transportFields.map (·.1)) ∧
+    (∀ f, f ∈ timeoutFilters → f ∉ Gen.C04.proxyChainNames) := by decide
+
+/-- **Fidelity for every delay**: whenever the upstream answers — however long it waits before the status line, between
+    header and body, between pieces of the body — the client gets the relayed answer (and `c04_response_fidelity` says what
+    that is): the relay has no deadline of its own. -/
+theorem c04_relay_every_delay (t : Timing) (closeWhenIdle : Bool) (status : Nat) (lines : List (Str × Str)) (body : Str) :
+    relayTimed codeDeadlines t closeWhenIdle status lines body = .relayed (relayResponse closeWhenIdle status lines body) := by
+  unfold relayTimed
+  rw [c04_no_response_deadline.1]
+
+/-- … and what that answer is, in one statement -/
+theorem c04_response_fidelity_timed (t : Timing) (closeWhenIdle : Bool) (status : Nat) (lines : List (Str × Str)) (body : Str) :
+    ∃ r, relayTimed codeDeadlines t closeWhenIdle status lines body = .relayed r ∧ r.status = status ∧ r.body = body ∧
+      ∀ k, r.headers.values k = respHdrExpected (preHeaders closeWhenIdle) (upstreamResponseHeaders lines) k :=
+  ⟨_, c04_relay_every_delay t closeWhenIdle status lines body, c04_response_fidelity closeWhenIdle status lines body⟩
+
+/-- For ANY deadlines (what a tree with a response-header time-out would do): every delay below the deadline is relayed in full,
+    delays after the header never matter … -/
+theorem c04_relay_below_deadline (dl : Deadlines) (t : Timing) (closeWhenIdle : Bool) (status : Nat) (lines : List (Str × Str)) (body : Str)
+    (h : ∀ d, dl.responseHeader = some d → t.beforeStatus < d) :
+    relayTimed dl t closeWhenIdle status lines body = .relayed (relayResponse closeWhenIdle status lines body) := by
+  unfold relayTimed
+  cases hd : dl.responseHeader with
+  | none => rfl
+  | some d =>
+    have := h d hd
+    simp only
+    rw [if_neg (by omega)]
+
+/-- … and a header that comes at or after the deadline ends the exchange with the gateway's own 502: nothing is relayed
+    although the request was forwarded — which is why the property needs `c04_no_response_deadline` -/
+theorem c04_relay_deadline_terminates (dl : Deadlines) (t : Timing) (d : Nat) (closeWhenIdle : Bool) (status : Nat)
+    (lines : List (Str × Str)) (body : Str) (hd : dl.responseHeader = some d) (h : d ≤ t.beforeStatus) :
+    relayTimed dl t closeWhenIdle status lines body = .gatewayError := by
+  unfold relayTimed
+  rw [hd]
+  simp only
+  rw [if_pos h]
+
+/-- the outcome depends on the time before the header only -/
+theorem c04_relay_later_delays_irrelevant (dl : Deadlines) (t t' : Timing) (h : t.beforeStatus = t'.beforeStatus)
+    (closeWhenIdle : Bool) (status : Nat) (lines : List (Str × Str)) (body : Str) :
+    relayTimed dl t closeWhenIdle status lines body = relayTimed dl t' closeWhenIdle status lines body := by
+  unfold relayTimed
+  rw [h]
+
+/-- non-vacuity: a tree whose transport had `ResponseHeaderTimeout: cfg.Timeout` (5 s) would answer a 201 that comes after 6 s
+    with its own 502, and relay one that comes after 4 s -/
+example : relayTimed ⟨durationOf "ResponseHeaderTimeout" [("TLSHandshakeTimeout", 10000), ("ResponseHeaderTimeout", 5000)]⟩
+    ⟨6000, 0, []⟩ false 201 [] [] = .gatewayError := by decide
+example : relayTimed ⟨durationOf "ResponseHeaderTimeout" [("TLSHandshakeTimeout", 10000), ("ResponseHeaderTimeout", 5000)]⟩
+    ⟨4000, 3000, [3000]⟩ false 201 [] [] = .relayed (relayResponse false 201 [] []) := by decide
+
 /-! ## gateway-terminated answers -/
 
 theorem retryAfter_pos : 0 < Gen.C04.retryAfter := by decide
